@@ -45,6 +45,9 @@ type ACase struct {
 	Lo      int    `json:"lo"`
 	K       int    `json:"k"`
 	CapMode int    `json:"cap_mode"`
+	// Wide (InsertSlice): the view may lie ANYWHERE in the buffer (limit = the whole buffer): also in the target's own
+	// spare capacity (behind its length), across the end of its capacity, or in the elements behind it.
+	Wide bool `json:"wide,omitempty"`
 }
 
 var aliasRunners = map[string]func(ACase) pbt.Outcome{}
@@ -106,9 +109,12 @@ func runAlias[E any](et *etype[E], c ACase) (out pbt.Outcome) {
 	case "InsertSlice":
 		idx := mod(c.Index, n+1)
 		limit := c.Off + n
+		if c.Wide {
+			limit = T
+		}
 		lo := mod(c.Lo, limit+1)
 		k := mod(c.K, limit-lo+1)
-		if k >= 1 && k <= c.Spare && lo-c.Off > idx {
+		if k >= 1 && k <= c.Spare && lo-c.Off > idx && lo < c.Off+n {
 			// the shape the pinned tree got wrong (values from behind the index, inserted in place; fixed: 4554316)
 			lab("values-from-behind-the-index-inserted-in-place")
 		}
@@ -129,7 +135,22 @@ func runAlias[E any](et *etype[E], c ACase) (out pbt.Outcome) {
 			return pbt.Fail("%s: the result is not s[:index] + the values as they were passed + s[index:]: %s (got %s, want %s)", call(), d, showElems(et, s), showElems(et, want))
 		}
 		inPlace := k <= c.Spare
-		lab(aliasRelation(idx, lo-c.Off, hi-c.Off, n, inPlace))
+		capEnd := c.Off + n + c.Spare
+		switch {
+		case k == 0 || lo < c.Off+n:
+			lab(aliasRelation(idx, lo-c.Off, hi-c.Off, n, inPlace))
+		case hi <= capEnd && idx == n:
+			lab(map[bool]string{true: "in-place:", false: "realloc:"}[inPlace] + "view-in-the-spare-capacity,index=len")
+		case hi <= capEnd:
+			lab(map[bool]string{true: "in-place:", false: "realloc:"}[inPlace] + "view-in-the-spare-capacity,index<len")
+		case lo < capEnd:
+			lab(map[bool]string{true: "in-place:", false: "realloc:"}[inPlace] + "view-across-the-end-of-the-capacity")
+		default:
+			lab(map[bool]string{true: "in-place:", false: "realloc:"}[inPlace] + "view-behind-the-capacity")
+		}
+		if k >= 1 && lo < c.Off+n && hi > c.Off+n {
+			lab("view-spans-len(elements+spare-capacity)")
+		}
 		lab(capLabel)
 		if lo < c.Off {
 			lab("view-starts-before-the-slice")
@@ -144,7 +165,7 @@ func runAlias[E any](et *etype[E], c ACase) (out pbt.Outcome) {
 				lab("len(values)>elements-after-index")
 			}
 		}
-		out.NonTrivial = k >= 1 && hi > c.Off
+		out.NonTrivial = k >= 1 && hi > c.Off && lo < capEnd
 
 	case "Concat":
 		lo := mod(c.Lo, T+1)
@@ -255,6 +276,36 @@ func enumerateAlias(shard, shards int, tier string, yield0 func(ACase) bool) {
 				}
 			}
 		}
+		// wide views: every view that reaches beyond the slice's length (into its spare capacity, across the end of
+		// its capacity, behind it)
+		wl, ws := 5, 6
+		if tn == "string" {
+			wl, ws = 3, 4
+		}
+		if tier == "thorough" {
+			wl, ws = wl+2, ws+2
+		}
+		for _, off := range []int{0, 1} {
+			for n := 0; n <= wl; n++ {
+				for sp := 0; sp <= ws; sp++ {
+					for tail := 0; tail <= 2; tail += 2 {
+						T := off + n + sp + tail
+						for idx := 0; idx <= n; idx++ {
+							for lo := 0; lo <= T; lo++ {
+								for hi := max(lo, off+n+1); hi <= T; hi++ {
+									for cm := 0; cm < 3; cm++ {
+										yield(ACase{Type: tn, Op: "InsertSlice", Off: off, Len: n, Spare: sp, Tail: tail, Index: idx, Lo: lo, K: hi - lo, CapMode: cm, Wide: true})
+									}
+								}
+							}
+						}
+					}
+					if stop {
+						return
+					}
+				}
+			}
+		}
 		for _, off := range []int{0, 1} {
 			for n := 0; n <= 4; n++ {
 				for sp := 0; sp <= 3; sp++ {
@@ -298,6 +349,17 @@ func enumerateAlias(shard, shards int, tier string, yield0 func(ACase) bool) {
 						yield(ACase{Type: tn, Op: "InsertSlice", Len: n, Spare: sp, Index: idx, Lo: lo, K: k, CapMode: (lo + sp) % 3})
 					}
 				}
+				// wide: values from the spare capacity (sp elements) and around its two ends
+				for _, sp := range []int{1, 7, n / 2, n + 9} {
+					for _, v := range [][2]int{{n, n + sp}, {n, n + (sp+1)/2}, {n + sp/2, n + sp}, {n + sp/3, n + sp/3 + sp/2}, {n - 1, n + 1}, {idx, n + sp/2}, {0, n + sp},
+						{n + sp - 1, n + sp + 1}, {n + sp, n + sp + 2}, {n + sp/2, n + sp + 2}} {
+						lo, hi := v[0], v[1]
+						if lo < 0 || lo >= hi || sp < 1 {
+							continue
+						}
+						yield(ACase{Type: tn, Op: "InsertSlice", Len: n, Spare: sp, Tail: 2, Index: idx, Lo: lo, K: hi - lo, CapMode: (lo + sp) % 3, Wide: true})
+					}
+				}
 			}
 			if stop {
 				return
@@ -319,7 +381,9 @@ var specAlias = pbt.Register(&pbt.Spec[ACase]{
 		"ends i.e. in a's spare capacity, before a, behind a): result = a + b and shares no memory with buf (writing the result up to its capacity changes " +
 		"nothing in buf and vice versa). Clone(buf[lo:hi:c]) likewise. " +
 		"Enumerated part (exhaustive): InsertSlice: off in {0, 2}, len 0..6, spare 0..7 on int and len 0..4, spare 0..5 on string, every index, every view (lo, hi), 3 view capacities " +
-		"(thorough: len and spare two more each); Concat/Clone: off 0..1, len 0..4, spare 0..3, tail 0..1, every view, 3 capacities; plus large shapes (int, string, 520-byte struct): " +
+		"(thorough: len and spare two more each); wide=true: the values may lie ANYWHERE in the buffer - in the slice's own spare capacity (behind its length: a read buffer extended by data already received behind it), " +
+		"across its length, across the end of its capacity, behind it (tail elements) - enumerated: off 0..1, len 0..5, spare 0..6 (string: len 0..3, spare 0..4; thorough two more each), tail in {0, 2}, every index, every view that ends behind " +
+		"the slice's length, 3 view capacities; large shapes: spare in {1, 7, len/2, len+9}, ten views in and around the spare capacity; random: one InsertSlice case in three is wide (index = len in a third of them); Concat/Clone: off 0..1, len 0..4, spare 0..3, tail 0..1, every view, 3 capacities; plus large shapes (int, string, 520-byte struct): " +
 		"len in {31, 32, 33, 100, 255, 256, 257, 1000, 1023, 1024, 1025, 4097} (thorough up to 65537), index in {0, 1, len/3, len/2, len-1, len}, twelve views relative to " +
 		"the index, spare in {0, k-1, k, k+1, len+k+7} (the 520-byte struct up to len 257). Random part: any of the 18 element types of C12.types, sizes 0..12 (1 in 8: up to 70; 1 in 10: up to 3000 " +
 		"next to powers of two). non-trivial = (InsertSlice) non-empty values overlapping the slice's own elements; (Concat) both operands non-empty; " +
@@ -377,6 +441,25 @@ var specAlias = pbt.Register(&pbt.Spec[ACase]{
 			}
 		}
 		c.CapMode = rapid.IntRange(0, 2).Draw(t, "cap_mode")
+		if c.Op == "InsertSlice" && rapid.IntRange(0, 2).Draw(t, "wide") == 0 {
+			// the view anywhere in the buffer: mostly starting at or behind the slice's length
+			c.Wide = true
+			c.Tail = rapid.IntRange(0, 3).Draw(t, "wide_tail")
+			if !big {
+				c.Spare = rapid.IntRange(0, 14).Draw(t, "wide_spare")
+			} else {
+				c.Spare = min(c.Spare, 3000)
+			}
+			T := c.Off + c.Len + c.Spare + c.Tail
+			c.Lo = rapid.IntRange(0, T).Draw(t, "wide_lo")
+			if rapid.IntRange(0, 2).Draw(t, "wide_lo_kind") > 0 {
+				c.Lo = c.Off + c.Len + rapid.IntRange(0, c.Spare).Draw(t, "wide_lo_in_spare")
+			}
+			c.K = rapid.IntRange(0, T-c.Lo).Draw(t, "wide_k")
+			if rapid.IntRange(0, 2).Draw(t, "wide_index_kind") == 0 {
+				c.Index = c.Len
+			}
+		}
 		return c
 	},
 	Run: RunAlias, Quick: 30000, Thorough: 120000,
